@@ -138,7 +138,7 @@ class Engine(ExprMixin, StmtMixin, CallMixin):
         self.container_models = {}
         self.const_overrides = {}
         self.stats = {"stmts": 0, "ifs": 0, "merges": 0, "calls": 0, "feasibility_queries": 0, "cut_paths": 0, "solver_s": 0.0}
-        self.max_stmts = 2_000_000
+        self.max_stmts = 150_000   # the largest check executes < 10 000 statements per engine; a runaway exploration (e.g. unbounded recursion) stops here as 'unsupported'
         self.unroll_bound = 0
         self.allow_cut = False
         self.feas_timeout_ms = 20_000
